@@ -50,8 +50,16 @@ type csvWant struct {
 
 func checkC13(w *Worker) {
 	w.appInit()
+	slowSink := false
 	verify := func(x *Exec, c appCase, want []csvWant, decimals int, what string) {
-		r := runApp(c)
+		var r AppRun
+		if slowSink {
+			// the same command through the CmdUtils seam, writing to a sink in which every write is a scheduling point
+			r = runCU(cuCase{Args: c.Args, Files: c.Files})
+			logRun(c, r)
+		} else {
+			r = runApp(c)
+		}
 		x.Obs(r.Key())
 		x.Sample(map[string]interface{}{"cmd": c.shell(), "stdout": r.Stdout})
 		rep := map[string]interface{}{"cmd": c.shell(), "observed": r.String()}
@@ -121,37 +129,19 @@ func checkC13(w *Worker) {
 	w.Explore("large-exports", ExploreOpts{ShardDepth: 2}, func(x *Exec) {
 		which := x.Choose(3, "input:export")
 		n := []int{200, 1500}[x.Choose(2, "input:rows")]
-		var sb strings.Builder
-		var want []csvWant
-		dec := 3
-		var c appCase
-		switch which {
-		case 0:
-			for d := 0; d < n; d++ {
-				date := fmt.Sprintf("20%02d/%02d/%02d", 21+d/336, 1+(d/28)%12, 1+d%28)
-				nm := c13Names[d%len(c13Names)] + fmt.Sprint(" ", d)
-				sb.WriteString(date + ":\n  " + nm + ": " + fmt.Sprint(d) + ".125\n")
-				want = append(want, csvWant{strings.ReplaceAll(date, "/", "-"), nm, exactDec(fmt.Sprint(d) + ".125")})
-			}
-			c = appCase{Args: []string{"csv", "log"}, Files: map[string]string{"food.yaml": "", "log.yaml": sb.String()}}
-		default:
-			dec = 2
-			for d := 0; d < n; d++ {
-				nm := fmt.Sprintf("%06d %s", d, c13Names[d%len(c13Names)])
-				sb.WriteString(nm + ":\n  zeta: " + fmt.Sprint(d) + ".5\n  alpha: -1\n")
-				if which == 1 {
-					want = append(want, csvWant{nm, "zeta", exactDec(fmt.Sprint(d) + ".5")}, csvWant{nm, "alpha", exactDec("-1")})
-				} else {
-					want = append(want, csvWant{nm, "alpha", exactDec("-1")}, csvWant{nm, "zeta", exactDec(fmt.Sprint(d) + ".5")})
-				}
-			}
-			cmd := "database"
-			if which == 2 {
-				cmd = "database-resolved"
-			}
-			c = appCase{Args: []string{"csv", cmd}, Files: map[string]string{"food.yaml": sb.String()}}
-		}
+		c, want, dec := c13Large(which, n)
 		x.Case(fmt.Sprint("large", which, n), true)
+		verify(x, c, want, dec, []string{"log", "database", "database-resolved"}[which])
+	})
+	// exports of 60..250 KiB into a slow sink (a pipe nobody reads yet, a terminal): if the export is written by a goroutine
+	// of its own, the formatter runs on while a write is in progress (one departure from the default schedule)
+	w.Explore("large-exports-to-a-slow-sink", ExploreOpts{ShardDepth: 2, Budgets: map[string]int{"appsched": 1}}, func(x *Exec) {
+		which := x.Choose(3, "input:export")
+		n := []int{1500, 3000, 6000}[x.Choose(3, "input:rows")]
+		slowSink = true
+		defer func() { slowSink = false }()
+		c, want, dec := c13Large(which, n)
+		x.Case(fmt.Sprint("slow", which, n), true)
 		verify(x, c, want, dec, []string{"log", "database", "database-resolved"}[which])
 	})
 	// calendar: every day around every turn of the year 2018..2027 (ISO week-years differ from calendar years there), the
@@ -451,4 +441,39 @@ func c13FromDayNumber(n int) string {
 	e := c - 1461*d/4
 	m := (5*e + 2) / 153
 	return fmt.Sprintf("%04d/%02d/%02d", 100*b+d-4800+m/10, m+3-12*(m/10), e-(153*m+2)/5+1)
+}
+
+// c13Large: a log of n days (export 0) or a book of n recipes (exports 1, 2) and the rows expected
+func c13Large(which, n int) (appCase, []csvWant, int) {
+	var sb strings.Builder
+	var want []csvWant
+	dec := 3
+	var c appCase
+	switch which {
+	case 0:
+		for d := 0; d < n; d++ {
+			date := fmt.Sprintf("20%02d/%02d/%02d", 21+d/336, 1+(d/28)%12, 1+d%28)
+			nm := c13Names[d%len(c13Names)] + fmt.Sprint(" ", d)
+			sb.WriteString(date + ":\n  " + nm + ": " + fmt.Sprint(d) + ".125\n")
+			want = append(want, csvWant{strings.ReplaceAll(date, "/", "-"), nm, exactDec(fmt.Sprint(d) + ".125")})
+		}
+		c = appCase{Args: []string{"csv", "log"}, Files: map[string]string{"food.yaml": "", "log.yaml": sb.String()}}
+	default:
+		dec = 2
+		for d := 0; d < n; d++ {
+			nm := fmt.Sprintf("%06d %s", d, c13Names[d%len(c13Names)])
+			sb.WriteString(nm + ":\n  zeta: " + fmt.Sprint(d) + ".5\n  alpha: -1\n")
+			if which == 1 {
+				want = append(want, csvWant{nm, "zeta", exactDec(fmt.Sprint(d) + ".5")}, csvWant{nm, "alpha", exactDec("-1")})
+			} else {
+				want = append(want, csvWant{nm, "alpha", exactDec("-1")}, csvWant{nm, "zeta", exactDec(fmt.Sprint(d) + ".5")})
+			}
+		}
+		cmd := "database"
+		if which == 2 {
+			cmd = "database-resolved"
+		}
+		c = appCase{Args: []string{"csv", cmd}, Files: map[string]string{"food.yaml": sb.String()}}
+	}
+	return c, want, dec
 }
